@@ -14,6 +14,7 @@ import (
 	"strings"
 	"sync"
 	"sync/atomic"
+	"syscall"
 	"time"
 
 	"verif/internal/gen"
@@ -57,7 +58,7 @@ func Hash64(b []byte) uint64 {
 
 // ChunkPlan says how many bytes a Read may deliver.
 type ChunkPlan struct {
-	Kind  string `json:"kind"` // whole | fixed | random | straddle
+	Kind  string `json:"kind"` // whole | fixed | random | straddle | stall (Size consecutive (0,nil) reads before every Block-th delivery)
 	Size  int    `json:"size,omitempty"`
 	Seed  uint64 `json:"seed,omitempty"`
 	Block int    `json:"block,omitempty"` // straddle: sample size
@@ -78,12 +79,25 @@ type DelayPlan struct {
 
 var ErrCustom = errors.New("verif: injected source failure")
 
+// tempErr is a temporary-class error (Temporary() and Timeout() true), like EAGAIN or a net timeout.
+type tempErr struct{ msg string }
+
+func (e tempErr) Error() string   { return e.msg }
+func (e tempErr) Temporary() bool { return true }
+func (e tempErr) Timeout() bool   { return true }
+
+var ErrTemporary error = tempErr{"verif: resource temporarily unavailable (injected)"}
+
 func (f *FaultPlan) err() error {
 	switch f.Kind {
 	case "eof":
 		return io.EOF
 	case "ueof":
 		return io.ErrUnexpectedEOF
+	case "temporary":
+		return ErrTemporary
+	case "eagain":
+		return syscall.EAGAIN
 	}
 	return ErrCustom
 }
@@ -148,6 +162,8 @@ type Reader struct {
 	MaxEvents int
 	seq       *int64
 	Exhaust   bool // set when a Read hit the end of the stream
+	deliv     int  // deliveries so far (stall plan)
+	stall     int  // remaining (0,nil) answers of the current stall
 }
 
 func NewReader(data []byte, chunk ChunkPlan, fault *FaultPlan, delay DelayPlan, seq *int64) *Reader {
@@ -207,6 +223,20 @@ func (r *Reader) Read(p []byte) (int, error) {
 func (r *Reader) readLocked(p []byte) (int, error) {
 	if len(p) == 0 {
 		return 0, nil
+	}
+	if r.chunk.Kind == "stall" {
+		if r.stall > 0 {
+			r.stall--
+			return 0, nil
+		}
+		r.deliv++
+		blk := r.chunk.Block
+		if blk <= 0 {
+			blk = 1
+		}
+		if r.deliv%blk == 0 {
+			r.stall = r.chunk.Size
+		}
 	}
 	if r.fault != nil && r.fired && r.fault.Sticky {
 		return 0, r.fault.err()
